@@ -1207,6 +1207,9 @@ def call_numpy(it, f, args, kwargs, node):
             it.nnz_count = getattr(it, "nnz_count", 0) + 1
             # the number of selected positions is one named unknown (possibly 0), shared by every later use on this path
             nm_ = "nnz%d@%s" % (it.nnz_count, it.site(node))
+            if isinstance(x, VTens) and x.term is not None:
+                # the same test of the same values selects the same positions: one count, however often it is asked for
+                nm_ = it.__dict__.setdefault("nnz_by_term", {}).setdefault(x.term, nm_)
             r = it.fresh(T.app("nonzero", x.term) if isinstance(x, VTens) and x.term is not None else None, (nm_,), "ndarray", node)
             if isinstance(x, VTens) and x.shape is not None and len(x.shape) == 1:
                 from .ops import DIM_BOUNDS, val_of_dim
@@ -1356,7 +1359,27 @@ def kind_matches(it, v, tv):
     return None
 
 
+_PURE_BUILTINS = {"sorted", "set", "frozenset", "list", "tuple", "str", "repr", "reversed", "len", "hash"}
+
+
 def call_builtin(it, f, args, kwargs, node):
+    r = _call_builtin(it, f, args, kwargs, node)
+    if f in _PURE_BUILTINS and not kwargs and args:
+        # a value nobody followed, built by a pure builtin from values that were: the same call on the same values gives it again
+        from .values import fingerprint as _fp
+
+        tgt = r.obj if isinstance(r, VList) else r
+        if (isinstance(r, VUnknown) or (isinstance(r, VList) and r.obj.items is None)) and getattr(tgt, "fp", None) is None and not isinstance(args[0], VGen):
+            fa_ = [_fp(a) for a in args]
+            if all(x is not None for x in fa_):
+                try:
+                    tgt.fp = ("call", f) + tuple(fa_)
+                except AttributeError:
+                    pass
+    return r
+
+
+def _call_builtin(it, f, args, kwargs, node):
     from .ops import dim_of, val_of_dim, binop, compare, num_compare
     from .interp import RaiseEx
 
@@ -1479,7 +1502,13 @@ def call_builtin(it, f, args, kwargs, node):
         items = it.concrete_items(args[0])
         if items is not None:
             return VTuple(items)
-        return VUnknown("tuple", "tuple")
+        u = VUnknown("tuple", "tuple")
+        from .values import fingerprint as _fp
+
+        fa_ = _fp(args[0])
+        if fa_ is not None:
+            u.fp = ("tuple-of", fa_)
+        return u
     if f == "dict":
         if args and isinstance(args[0], VDict):
             src = args[0].obj
@@ -1811,6 +1840,11 @@ def call_bound(it, recv, name, args, kwargs, node):
         if name == "join":
             u = VUnknown("joined", "str")
             u.not_none = True
+            from .values import fingerprint as _fp
+
+            fa_ = _fp(args[0]) if args else None
+            if fa_ is not None:
+                u.fp = ("join", s, fa_)
             return u
         u = VUnknown("str.%s" % name, "str")
         u.not_none = True
@@ -1991,6 +2025,8 @@ def list_method(it, lv, name, args, kwargs, node):
     l = lv.obj
     if name in ("append", "extend", "insert", "sort", "reverse", "pop", "remove", "clear"):
         it.effect("container", l, node, "list.%s" % name)
+        if getattr(l, "fp", None) is not None:
+            l.fp = None  # no longer the value it was built as
         if l.items is None:
             return VUnknown("list.%s" % name, "unknown") if name == "pop" else VConst(None)
         if name == "append":
